@@ -44,6 +44,7 @@ def run(ctx, pid=PID, families=(("commit", 120, 600), ("retry", 60, 300)), mutan
         raise vlib.Infra("design model no longer reproduces known finding D2; specification is stale")
     # 2. schedules
     scen = []
+    groups = []            # (model constants, run numbers) of the runs generated from the model: validated for conformance
     run_no = 1
     d2last = d2.trace[-1][1]
     scen.append(core.scripted(run_no, "D2-design-counterexample", core.parse_lines(d2last["lines"]),
@@ -53,14 +54,18 @@ def run(ctx, pid=PID, families=(("commit", 120, 600), ("retry", 60, 300)), mutan
     for sw, ov in mutants:
         lines, steps, violated = core.mutant_schedule(ctx, sw, ov)
         scen.append(core.scripted(run_no, "mutant-%s" % sw, lines, steps, core.consts_of(ov)))
+        groups.append((core.consts_of(ov), [run_no]))
         ctx.sample({"schedule_from_spec_mutant": sw, "violates_in_mutant_spec": violated, "lines": lines, "steps": steps})
         run_no += 1
     for ov in ({}, {"BatchCount": "2"}, {"HasDQ": "TRUE", "MaxFails": "2", "Classes": '{"P"}'},
                {"Classes": '{"P", "H", "C"}', "Strs": '{"a"}', "MaxId": "4"},
                {"Capacity": "1", "Classes": '{"P", "D", "R"}'}):
+        g = []
         for lines, steps in core.simulated_schedules(ctx, 60 if thorough else 12, ov):
             scen.append(core.scripted(run_no, "sim-%d" % run_no, lines, steps, core.consts_of(ov)))
+            g.append(run_no)
             run_no += 1
+        groups.append((core.consts_of(ov), g))
     for fam, nq, nt in families:
         scen += core.random_scenarios(ctx, nt if thorough else nq, fam, start_run=run_no)
         run_no = scen[-1]["run"] + 1
@@ -72,6 +77,20 @@ def run(ctx, pid=PID, families=(("commit", 120, 600), ("retry", 60, 300)), mutan
     chunk = 150
     for i in range(0, len(scen), chunk):
         core.execute_and_validate(ctx, pid, scen[i:i + chunk])
+        if i == 0 and groups:
+            # conformance of the model-generated runs: each must be a behaviour of Pipeline.tla (PipelineTrace.tla)
+            acc, rej = core.conformance(ctx, ctx._last_trace, groups)
+            ctx.extra["conformance_runs_accepted"] = acc
+            ctx.extra["conformance_runs_rejected"] = rej[:10]
+            ctx.drift += len(rej)
+            for r in rej[:5]:
+                vlib.log("MODEL-DRIFT: run %s is not a behaviour of Pipeline.tla (followed %s of %s lines; next: %s)" % (r["run"], r["reached"], r["lines"], r["next_line"]))
+            first = next((g for g in groups if g[1]), None)
+            if first:
+                ok = core.conformance_selftest(ctx, ctx._last_trace, first[0], first[1][0])
+                ctx.extra["conformance_rejects_corrupted_trace"] = ok
+                if ok is False:
+                    raise vlib.Infra("trace specification accepted a corrupted trace: binding is vacuous")
     ctx.rule = ("scenario = (lines with source/stream/class, configuration, gate-level schedule or seed); schedules come from "
                 "TLC counterexamples of spec mutants, TLC simulation of Pipeline.tla and a seeded random generator. "
                 "Non-trivial/distinct = distinct renamed sequences of send-return/commit/drop steps of runs in which a "
